@@ -1,6 +1,11 @@
 package zzsimrt
 
-import "runtime"
+import (
+	"runtime"
+	"time"
+)
 
 func realGOMAXPROCS(n int) int { return runtime.GOMAXPROCS(n) }
 func realNumCPU() int          { return runtime.NumCPU() }
+
+func realSleep() { time.Sleep(500 * time.Microsecond) }
